@@ -428,7 +428,25 @@ def make():
         _depends_on = [Rng]
         _extra_c_sources = ["/*gpufun*/ int64_t Probe_seed(RngData r){ return RngData_get_s(r); }"]
 
-    return dict(Rng=Rng, Kick=Kick, Line=Line, Mon=Mon, Tab=Tab, Shape=Shape, Scene=Scene, Probe=Probe)
+    # named array classes derived from an array class OBJECT that is also used (and built) on its own (M11-C14: what is
+    # kept on a class from an earlier build must not be found through the MRO by a class derived from it)
+    class Pnt(xo.Struct):
+        x = xo.Float64
+        y = xo.Float64
+
+    P3 = Pnt[3]
+
+    class Tri(P3):
+        pass
+
+    class Mesh(Tri[:]):
+        pass
+
+    class Cell(xo.Struct):
+        c = P3
+        k = xo.Int32
+
+    return dict(Rng=Rng, Kick=Kick, Line=Line, Mon=Mon, Tab=Tab, Shape=Shape, Scene=Scene, Probe=Probe, Pnt=Pnt, P3=P3, Tri=Tri, Mesh=Mesh, Cell=Cell)
 
 
 def xs(c):
@@ -468,24 +486,49 @@ def judge(roots):
         for d in [xs(d) for d in (list(c._get_inner_types()) if hasattr(c, "_get_inner_types") else []) + list(getattr(c, "_depends_on", []))]:
             if hasattr(d, "_gen_c_api") and id(d) in pos and not pos[id(d)] < pos[id(c)]:
                 return f"{d.__name__} is emitted after its dependant {c.__name__}"
+    # the emitted TEXT: the API block of every needed class (its include guard and its handle typedef) exactly once
+    import re
+    from xobjects.context import sources_from_classes
+
+    text = "\n".join(x if isinstance(x, str) else str(getattr(x, "source", x)) for x in sources_from_classes(res))
+    for c in need:
+        k = len(re.findall(r"#define\s+XOBJ_TYPEDEF_" + re.escape(c.__name__) + r"\b", text))
+        if k != 1:
+            return f"the API block of {c.__name__} needed by {[r.__name__ for r in roots]} is emitted {k} times in the source text (blocks: {re.findall(r'#define\s+XOBJ_TYPEDEF_(\w+)', text)})"
     for attempt in ("first", "second"):
         try:
             xo.ContextCpu().add_kernels(kernels={}, extra_classes=list(roots))
         except Exception as ex:  # noqa
             return f"the source emitted for {[r.__name__ for r in roots]} does not build ({attempt} build): {type(ex).__name__}: {str(ex)[:120]}"
     return None
+
+
+def judge_seq(cl, names, as_struct):
+    """names: class names; "|" separates builds made one after the other in the same process"""
+    groups, g = [], []
+    for n in list(names) + ["|"]:
+        if n == "|":
+            if g:
+                groups.append(g)
+            g = []
+        else:
+            g.append(n)
+    for g in groups:
+        msg = judge([getattr(cl[n], "_XoStruct", cl[n]) if as_struct else cl[n] for n in g])
+        if msg:
+            return msg + (f" [build of {g} in the sequence {list(names)}]" if len(groups) > 1 else "")
+    return None
 '''
 exec(HYB_SRC)
 
-HYB_ROOTS = [("Kick",), ("Line",), ("Mon",), ("Line", "Mon"), ("Rng", "Kick"), ("Mon", "Line", "Rng"), ("Scene",), ("Shape",), ("Scene", "Line"), ("Probe",), ("Probe", "Scene")]
+HYB_ROOTS = [("Kick",), ("Line",), ("Mon",), ("Line", "Mon"), ("Rng", "Kick"), ("Mon", "Line", "Rng"), ("Scene",), ("Shape",), ("Scene", "Line"), ("Probe",), ("Probe", "Scene"), ("P3", "|", "Tri"), ("Cell", "|", "Mesh"), ("Tri", "|", "P3", "Mesh"), ("Mesh", "P3")]
 
 REPLAY_HYB = '''#!/usr/bin/env python
 """replay: hybrid classes with declared dependencies against sort_classes + cffi build (exit 1 = violated)"""
 import sys
 {src}
 cl = make()
-roots = [{sel} for n in {names!r}]
-msg = judge(roots)
+msg = judge_seq(cl, {names!r}, {as_struct!r})
 if msg:
     print("VIOLATED:", msg); sys.exit(1)
 print("property holds on this case"); sys.exit(0)
@@ -495,9 +538,8 @@ print("property holds on this case"); sys.exit(0)
 def _hyb_case(arg):
     names, as_struct = arg
     cl = make()
-    roots = [getattr(cl[n], "_XoStruct", cl[n]) if as_struct else cl[n] for n in names]
     try:
-        return judge(roots)
+        return judge_seq(cl, names, as_struct)
     except Exception as ex:  # noqa
         return f"sort_classes raised {type(ex).__name__}: {str(ex)[:100]}"
 
@@ -592,7 +634,7 @@ def main(pid):
     for (names, as_struct), msg in zip(hjobs, hres):
         if msg:
             sel = "getattr(cl[n], \"_XoStruct\", cl[n])" if as_struct else "cl[n]"
-            rep.candidate("sort-hybrid:" + ("struct-roots" if as_struct else "hybrid-roots") + ":" + msg.split(" needed by")[0][:50], f"hybrid classes {names} given as {'struct' if as_struct else 'hybrid'} classes: {msg} (concrete observation)", REPLAY_HYB.format(src=HYB_SRC, sel=sel, names=tuple(names)))
+            rep.candidate("sort-hybrid:" + ("struct-roots" if as_struct else "hybrid-roots") + ":" + msg.split(" needed by")[0][:50], f"hybrid classes {names} given as {'struct' if as_struct else 'hybrid'} classes: {msg} (concrete observation)", REPLAY_HYB.format(src=HYB_SRC, as_struct=as_struct, names=tuple(names)))
     rep.validated += len(hjobs)
     rep.extra["hybrid_dependency_cases"] = len(hjobs)
     rep.extra["graphs_explored"] = graphs
